@@ -127,6 +127,50 @@ func genC06(kind string) func(r *core.Rng) any {
 		case "curved-endlevel":
 			p = genPath(r, pathOpts{Kinds: kAll, MinSegs: 1, MaxSegs: 5, MaxSubs: 2, Closed: 1})
 			c.Pts = queryPoints(r, p, 0, true, false, true)
+		case "connector-level":
+			// an S-shaped (or convex) cubic with horizontal tangents at both ends, closed by three lines;
+			// query points exactly level with the end points of the cubic, at distances from 1e-3 to 1e3
+			// times the width on both sides
+			x0, y0 := r.Range(-50, 50), r.Range(-50, 50)
+			w, h := r.Range(5, 40), r.Range(5, 40)
+			if r.Bool() {
+				h = -h
+			}
+			a, b := r.Range(0.2, 1.2), r.Range(0.2, 1.2)
+			if r.Chance(0.5) {
+				x0, y0, w, h = math.Round(x0), math.Round(y0), math.Round(w), math.Round(h)
+				a, b = math.Round(a*w)/w, math.Round(b*w)/w
+			}
+			x1, y1 := x0+w, y0+h
+			yb := math.Min(y0, y1) - r.Range(2, 20)
+			if r.Bool() {
+				yb = math.Max(y0, y1) + r.Range(2, 20)
+			}
+			p = &canvas.Path{}
+			p.MoveTo(x0, y0)
+			if r.Chance(0.8) {
+				p.CubeTo(x0+a*w, y0, x1-b*w, y1, x1, y1)
+			} else { // convex: horizontal tangent at the start only
+				p.CubeTo(x0+a*w, y0, x1, y1-b*h, x1, y1)
+			}
+			p.LineTo(x1, yb)
+			p.LineTo(x0, yb)
+			p.Close()
+			if r.Bool() {
+				p = p.Reverse()
+			}
+			c.Mode = "windings-nocrossings"
+			// one query point per case, left of the path or between the end points (a ray towards +x from
+			// the right of the path meets nothing)
+			y := y0
+			if r.Bool() {
+				y = y1
+			}
+			if r.Chance(0.7) {
+				c.Pts = append(c.Pts, Pt{x0 - r.LogRange(1e-3, 1e3)*w, y})
+			} else {
+				c.Pts = append(c.Pts, Pt{x0 + r.Range(0.02, 0.98)*w, y})
+			}
 		case "boundary-float", "boundary-poly", "boundary-curved":
 			c.Mode = "boundary"
 			kinds := kLine
@@ -428,6 +472,7 @@ func init() {
 			{Name: "curved-extrema", Quick: 1000, Thorough: 20000, Gen: genC06("curved-extrema"), WitnessOnly: true, Note: "ray tangent to a curve at its y-extremum: 5% wrong windings"},
 			{Name: "curved-linelevel", Quick: 1000, Thorough: 20000, Gen: genC06("curved-linelevel"), WitnessOnly: true, Note: "ray through a line-line vertex of a path that also has curves: 6% panics, 6% wrong"},
 			{Name: "curved-endlevel", Quick: 1000, Thorough: 20000, Gen: genC06("curved-endlevel"), WitnessOnly: true, Note: "ray through an end point of a Bezier/arc segment: 25% panics, 15% wrong"},
+			{Name: "connector-level", Quick: 1500, Thorough: 20000, Gen: genC06("connector-level"), WitnessOnly: true, Note: "cubic connectors with horizontal end tangents closed by lines, one ray level with an end point of the cubic: 40% panics, 5% wrong (F-C06-endlevel); 600 cases on which the library is right are pinned"},
 			{Name: "boundary-poly", Quick: 1000, Thorough: 20000, Gen: genC06("boundary-poly"), WitnessOnly: true, Note: "vertices and edge midpoints of integer-grid polylines: 0.5% panics"},
 			{Name: "boundary-curved", Quick: 1000, Thorough: 20000, Gen: genC06("boundary-curved"), WitnessOnly: true, Note: "points exactly on curved integer-grid paths: 15% panics, 15% not reported as boundary"},
 			{Name: "filling-curved", Quick: 1000, Thorough: 20000, Gen: genC06("filling-curved"), WitnessOnly: true, Note: "Filling of nested curved contours: the ray from a contour's start point passes through end points of the other contours' arcs (F-C06-endlevel): 4% wrong"},
